@@ -45,6 +45,7 @@ type FuncContract struct {
 	Params     []string // optional explicit parameter names (extern/iface)
 	Where      string
 	Lets       [][2]string // name, expr: ghost abbreviations usable in clauses (evaluated at entry)
+	Uses       map[string]map[string]bool // callee short name -> the only postconditions of it that are assumed at its call sites here
 	CutLoops   bool        // after a loop only the precondition and the loop invariants are known (path history is dropped)
 	NoSafety   string      // reason: safety (no-panic) obligations are not generated for this function
 }
@@ -74,7 +75,7 @@ type ContractDB struct {
 }
 
 var clauseKW = map[string]bool{"props": true, "requires": true, "ensures": true, "modifies": true, "loop": true, "emits": true,
-	"pure": true, "noeffect": true, "trusted": true, "params": true, "let": true, "internal": true, "nosafety": true, "cutloops": true}
+	"pure": true, "noeffect": true, "trusted": true, "params": true, "let": true, "internal": true, "nosafety": true, "cutloops": true, "uses": true}
 
 var topKW = map[string]bool{"func": true, "iface": true, "extern": true, "pred": true, "spec": true, "axiom": true, "lemma": true, "event": true}
 
@@ -239,6 +240,20 @@ func (db *ContractDB) parseFile(file, pkgPath string) error {
 					fc.Props = strings.Fields(crest)
 				case "cutloops":
 					fc.CutLoops = true
+				case "uses":
+					// uses Callee: clause clause ...
+					i := strings.Index(crest, ":")
+					if i < 0 {
+						return fmt.Errorf("%s: uses Callee: clause ...", cwhere)
+					}
+					if fc.Uses == nil {
+						fc.Uses = map[string]map[string]bool{}
+					}
+					set := map[string]bool{}
+					for _, c := range strings.Fields(strings.ReplaceAll(crest[i+1:], ",", " ")) {
+						set[c] = true
+					}
+					fc.Uses[strings.TrimSpace(crest[:i])] = set
 				case "nosafety":
 					fc.NoSafety = crest
 					if fc.NoSafety == "" {
